@@ -1,5 +1,7 @@
 package main
 
+import "strings"
+
 func allLocks(string) bool { return true }
 
 func init() {
@@ -85,7 +87,7 @@ func init() {
 			c.guard("C03.2", func() { ruleStatusIffFailed(c, "C03.2") })
 			c.guard("C03.3", func() { ruleErrorToStatusSiblings(c, "C03.3") })
 			c.guard("C03.4", func() { ruleValueOrError(c, "C03.4") })
-			c.guard("C03.5", func() { ruleResetNeverSuccess(c, "C03.5") })
+			c.guard("C03.5", func() { ruleResetNeverSuccess(c, "C03.5"); ruleTerminalErrorIsStatus(c, "C03.5") })
 			c.guard("C03.6", func() { ruleSingleWriter(c, "C03.6"); ruleTrailerBeforeUnregister(c, "C03.6") })
 		},
 	})
@@ -127,6 +129,7 @@ func init() {
 				rulePerEnvelopeGoroutines(c, "C05.4")
 			})
 			c.guard("C05.5", func() { ruleRegistrationKey(c, "C05.5") })
+			c.guard("C05.6", func() { ruleFreshPerCallState(c, "C05.6") })
 		},
 	})
 	register(&propSpec{
@@ -170,6 +173,7 @@ func init() {
 			c.guard("C08.1", func() { ruleTimeoutTables(c, "C08.1", "C08.2") })
 			c.guard("C08.3", func() { ruleDeadlineIffDeadline(c, "C08.3") })
 			c.guard("C08.4", func() { ruleTimeoutArithmetic(c, "C08.4", "C08.5", "C08.6") })
+			c.guard("C08.7", func() { ruleTimeoutWithinGrammar(c, "C08.7") })
 		},
 	})
 }
@@ -181,11 +185,18 @@ func init() {
 		ruleText:    "obligation = one store/close/delete, insertion, return or receive; non-trivial = needed locksets, facts, provenance or a path search",
 		assumptions: baseAssumptions,
 		run: func(c *Ctx, thorough bool) {
-			c.guard("C09.1", func() { ruleFailurePublication(c, "C09.1") })
+			c.guard("C09.1", func() {
+				ruleFailurePublication(c, "C09.1")
+				ruleRegistryRemovalSites(c, "C09.1", "client.RpcMultiplexer.handlers", []string{"client.RpcMultiplexer.unregisterHandler", "client.RpcMultiplexer.closeError"})
+			})
 			c.guard("C09.2", func() { ruleCheckThenRegister(c, "C09.2") })
 			c.guard("C09.3", func() { ruleReadLoopExitPublished(c, "C09.3") })
 			c.guard("C09.4", func() { ruleClosedChannelMeansError(c, "C09.4") })
-			c.guard("C09.5", func() { ruleTerminalErrorAssigned(c, "C09.5"); ruleLatchRelease(c, "C09.5") })
+			c.guard("C09.5", func() {
+				ruleTerminalErrorAssigned(c, "C09.5")
+				ruleLatchRelease(c, "C09.5")
+				ruleTerminalErrorIsStatus(c, "C09.5")
+			})
 			c.guard("C09.6", func() { ruleWaitingEscapable(c, "C09.6") })
 		},
 	})
@@ -197,7 +208,10 @@ func init() {
 		run: func(c *Ctx, thorough bool) {
 			c.guard("C10.1", func() { ruleServeCancellable(c, "C10.1") })
 			c.guard("C10.2", func() { ruleServeReturns(c, "C10.2") })
-			c.guard("C10.3", func() { ruleStreamsCancelledAndAwaited(c, "C10.3") })
+			c.guard("C10.3", func() {
+				ruleStreamsCancelledAndAwaited(c, "C10.3")
+				ruleRegistryRemovalSites(c, "C10.3", "goat.handler.streams", []string{"goat.handler.unregisterStream"})
+			})
 			c.guard("C10.4", func() { ruleHandlerCtxCancelledByConnEnd(c, "C10.4") })
 			c.guard("C10.5", func() { ruleServerGoroutinesCanExit(c, "C10.5") })
 		},
@@ -259,7 +273,10 @@ func init() {
 		assumptions: baseAssumptions,
 		run: func(c *Ctx, thorough bool) {
 			c.guard("C14.1", func() { ruleClientRegistrationPairing(c, "C14.1") })
-			c.guard("C14.2", func() { ruleServerRegistrationPairing(c, "C14.2") })
+			c.guard("C14.2", func() {
+				ruleServerRegistrationPairing(c, "C14.2")
+				ruleRegistryRemovalSites(c, "C14.2", "goat.handler.streams", []string{"goat.handler.unregisterStream"})
+			})
 			c.guard("C14.3", func() { ruleCancelNotDropped(c, "C14.3") })
 			c.guard("C14.4", func() { rulePerRPCGoroutinesCanExit(c, "C14.4") })
 			c.guard("C14.5", func() { ruleQueuesDieWithRegistration(c, "C14.5") })
@@ -379,4 +396,31 @@ func ruleStreamLockObservation(c *Ctx, rule string) {
 		}
 	}
 	c.trivial(rule, "stream-state-locks", true, itoa(n)+" blocking primitives execute under a per-object (non-registry) lock; recorded as observations")
+}
+
+// C05.6: per-call state objects are freshly allocated by their constructors (not recycled from a pool or a
+// shared variable): state left behind by one call cannot surface in another.
+func ruleFreshPerCallState(c *Ctx, rule string) {
+	p := c.p
+	for _, fk := range []string{"server.NewServerStream", "server.NewUnaryServerTransportStream", "server.NewServerTransportStream", "client.NewStream"} {
+		f := p.MustFn(fk)
+		n := 0
+		for _, r := range returnsOf(f) {
+			v := retVals(r)[0]
+			if isNilConst(v) {
+				continue
+			}
+			n++
+			ok := true
+			why := ""
+			for _, t := range p.Origins().Of(v) {
+				if t.Op != "alloc" || !strings.Contains(t.Name, "@"+fk+"#") {
+					ok = false
+					why = "constructor may return " + t.String()
+				}
+			}
+			c.check(rule, fk+":fresh-object", ok, "the per-call object returned is allocated in this constructor call "+why, p.ipos(r))
+		}
+		c.floor(rule, "object-returning exits of "+fk, n, 1)
+	}
 }
